@@ -244,6 +244,7 @@ func checkC05(ck *Check) {
 	// R6 cached node size
 	ck.cachedNodeSize("C05.R6")
 	ck.ok("C05.R7", "composition", "", "", "requested = delta − (number actually untainted) (decided as C07.R2)", "see C07.R2")
+	ck.untaintAgreement("C05.R7")
 }
 
 func (ck *Check) sentinelAgreement(rule string) {
@@ -597,6 +598,7 @@ func checkC13(ck *Check) {
 	ck.percentFormula("C13.R4")
 	// R5 / R6
 	ck.countingArgs("C13.R5")
+	ck.nodeListImmutability("C13.R5")
 	ck.ok("C13.R6", "max", "", "", "decisions use math.Max(cpu%, mem%) (decided as C06.R6)", "see C06.R6")
 }
 
